@@ -92,6 +92,8 @@ class Scenario:
             p["topics"] = list(self.topics)
         if not self.check_valid:
             p["check_valid"] = False
+        if getattr(self, "mask_by_has", False):
+            p["mask_by_has"] = True
         return p
 
     def constants(self, emit):
@@ -245,6 +247,7 @@ def validate_trace(pid, scn, trace_path, check_obs=True, timeout=1800, tag="v"):
     consts["MaxMult"] = "= 1000000"
     consts["CheckObs"] = "= " + ("TRUE" if check_obs else "FALSE")
     consts["ObsFields"] = "= " + vf.tla_set(scn.obs_fields if scn.obs_fields is not None else [])
+    consts["MaskByHas"] = "= " + ("TRUE" if getattr(scn, "mask_by_has", False) else "FALSE")
     cfg = vf.write_cfg(os.path.join(d, "MachineTrace.cfg"), consts, init="TInit", nxt="TNext",
                        invariants=(scn.invariants if check_obs else []), properties=[],
                        postcondition=("TraceAccepted" if check_obs else None))
